@@ -33,6 +33,8 @@ func init() {
 				Old:    "\terr = util.RecoverFunc(func() error {\n\t\treturn ctx.Packet.Decode(ctx, payload)\n\t})",
 				New:    "\terr = ctx.Packet.Decode(ctx, payload)",
 				Expect: "decode-recovers"},
+			{Name: "recover-lets-runtime-errors-through", File: "pkg/edition/java/proto/util/pwriter.go",
+				Old: "\t\tif e, ok := r.(error); ok {\n\t\t\t*err = e\n\t\t} else {", New: "\t\tif e, ok := r.(error); ok && e.Error() != \"\" {\n\t\t\t*err = e\n\t\t} else {", Expect: "recover-converts-errors"},
 			{Name: "string-panic-in-decoder", File: pkgPacket + "/serverlinks.go",
 				Old:    "\tif serverLinksCount < 0 {\n\t\treturn fmt.Errorf(\"server links count %d cannot be negative\", serverLinksCount)\n\t}",
 				New:    "\tif serverLinksCount < 0 {\n\t\tpanic(\"server links count cannot be negative\")\n\t}",
@@ -264,6 +266,7 @@ func runC05(c *Ctx) {
 		})
 		c.CheckAt("decode-recovers", "util.Recover", c.P.Pos(rc.Pos()), hasRecover, "util.Recover must call recover()")
 		c.Info["recover_repanics_non_errors"] = hasRepanic
+		checkRecoverConvertsAllErrors(c, rc)
 	}
 
 	// (3) non-error panics on decode paths
